@@ -10,7 +10,7 @@ from .projgen import KINDS, VARNAMES, VALS, new_tok
 # edits that change exactly one input of some step while everything else stays the same (the dangerous ones for incremental builds)
 SINGLE_FACTOR = ["env_samelen", "env_samelen", "tool_tok", "tool_tok", "src_mod", "src_mod", "class_tok", "pvar_samelen", "define_samelen", "tool_path"]
 ALL_EDITS = ["tok", "class_tok", "env_val", "dep_env", "strong_weak", "undeclare", "declare", "dep_remove", "dep_add", "pvar", "tool_tok",
-             "tool_path", "src_mod", "src_add", "src_del", "define", "menv", "default_env", "weak_env"]
+             "tool_path", "src_mod", "src_add", "src_del", "define", "menv", "default_env", "weak_env", "inc_mod"]
 
 
 def recipes_flat(model):
@@ -169,7 +169,7 @@ def _try(model, rnd, k):
         if ch == "path":
             t["path"] = "bin2" if t.get("path", "bin") == "bin" else "bin"
         elif ch == "libs":
-            t["libs"] = [] if t.get("libs") else ["lib"]
+            t["libs"] = rnd.choice([x for x in ([], ["lib"], ["lib2"], ["lib", "lib2"], ["lib2", "lib"]) if x != list(t.get("libs", []))])
         else:
             t.setdefault("env", {})["TE"] = rnd.choice(VALS)
         return ("tool_" + ch, m)
@@ -189,6 +189,20 @@ def _try(model, rnd, k):
             f = rnd.choice(sorted(files)); del files[f]
             return ("src_del", m, f)
         return None
+    if k == "inc_mod":
+        cands = [m for m in names if model["recipes"][m].get("includes")]
+        if not cands:
+            return None
+        m = rnd.choice(cands); inc = model["recipes"][m]["includes"]
+        ch = rnd.random()
+        if ch < 0.6 or len(inc["files"]) < 2:
+            f = rnd.choice(sorted(inc["files"])); inc["files"][f] = "changed-" + new_tok(rnd) + "\n"
+            return ("inc_mod", m, f)
+        if ch < 0.8:
+            f = rnd.choice(sorted(inc["files"])); del inc["files"][f]
+            return ("inc_del", m, f)
+        inc["files"]["f-new-%s.txt" % new_tok(rnd)] = "new\n"
+        return ("inc_add", m)
     if k == "define":
         v = rnd.choice(VARNAMES)
         d = model.setdefault("defines", {})
